@@ -536,6 +536,12 @@ func (f *fsm) sendKeepAlive() error {
 	return err
 }
 
+func newStoppedTimer() *time.Timer {
+	t := time.NewTimer(time.Hour)
+	t.Stop()
+	return t
+}
+
 func (f *fsm) drainAndResetHoldTimer() {
 	if !f.holdTimer.Stop() {
 		<-f.holdTimer.C
@@ -656,6 +662,15 @@ func (f *fsm) openSent() (fsmState, error) {
 					f.keepAliveInterval = f.holdTime / 3
 					f.keepAliveTimer = time.NewTimer(f.keepAliveInterval)
 					f.drainAndResetHoldTimer()
+				} else {
+					// https://tools.ietf.org/html/rfc4271#section-4.2
+					// A negotiated hold time of zero disables the hold and
+					// keepalive timers. Both are kept non-nil and stopped so
+					// that they can be selected on without ever firing.
+					if !f.holdTimer.Stop() {
+						<-f.holdTimer.C
+					}
+					f.keepAliveTimer = newStoppedTimer()
 				}
 
 				return openConfirmState, nil
@@ -736,7 +751,9 @@ func (f *fsm) openConfirm() (fsmState, error) {
 							- restarts the HoldTimer and
 							- changes its state to Established.
 					*/
-					f.drainAndResetHoldTimer()
+					if f.holdTime != 0 {
+						f.drainAndResetHoldTimer()
+					}
 					return establishedState, nil
 				case *Notification:
 					return idleState, newNotificationError(m, false)
